@@ -388,6 +388,14 @@ func (s *session) checkOutgoing(ep *endpoint, request string, reqCode int, known
 			}
 		case codeNewBlock:
 			c.Class("node-propagated-momentum")
+			if traceClass == "node-propagated-momentum" {
+				s.trace = true
+				var d *nom.DetailedMomentum
+				if rlp.DecodeBytes(m.data, &d) == nil && d != nil && d.Momentum != nil {
+					_, onA := s.heightOf[d.Momentum.Hash]
+					s.note("  <- node propagates momentum %d/%s to %s (a momentum of A: %v, %d bytes)", d.Momentum.Height, short(d.Momentum.Hash), ep.name, onA, m.size)
+				}
+			}
 		case codeTx:
 			c.Class("node-sent-transactions")
 		case codeBlockHashes:
